@@ -75,6 +75,25 @@ func main() {
 		_, _ = h3.Write(m[:cut])
 		_, _ = h3.Write(m[cut:])
 		emit("sha3_256_split", m, h3.SumHash())
+		// the same bytes in a buffer that is NOT 8-byte aligned, and a short header followed by a long body
+		// (the unaligned xorIn variant reinterprets the caller's buffer as 64-bit words)
+		big := rb(r, 300+r.IntN(500))
+		for off := 1; off < 8; off += 1 + r.IntN(3) {
+			buf := make([]byte, len(big)+8)
+			copy(buf[off:], big)
+			ub := buf[off : off+len(big)]
+			emit("sha3_256", big, hash.NewSHA3_256().ComputeHash(ub))
+			emit("sha3_384", big, hash.NewSHA3_384().ComputeHash(ub))
+			emit("keccak_256", big, hash.NewKeccak_256().ComputeHash(ub))
+		}
+		hb := hash.NewSHA3_384()
+		_, _ = hb.Write(big[:3])
+		_, _ = hb.Write(big[3:])
+		emit("sha3_384", big, hb.SumHash())
+		hk := hash.NewKeccak_256()
+		_, _ = hk.Write(big[:5])
+		_, _ = hk.Write(big[5:])
+		emit("keccak_256", big, hk.SumHash())
 		key := rb(r, 16+r.IntN(200))
 		cust := rb(r, r.IntN(20))
 		k, err := hash.NewKMAC_128(key, cust, 32+r.IntN(100))
